@@ -295,6 +295,7 @@ class Source:
                 # `for<'a>` higher-ranked bounds do not occur inside bodies here
                 j = k + 1
                 pd = 0
+                in_off = None
                 while True:
                     tt = sig[j]
                     if tt[0] == "punct" and tt[1] in "([":
@@ -303,14 +304,16 @@ class Source:
                         pd -= 1
                     elif tt[0] == "punct" and tt[1] == "{" and pd == 0:
                         break
+                    elif tt[0] == "ident" and tt[1] == "in" and pd == 0 and t[1] == "for" and in_off is None:
+                        in_off = tt[3] - base
                     j += 1
-                res.append(dict(kw=t[1], brace_off=sig[j][2] - base, kw_off=t[2] - base,
+                res.append(dict(kw=t[1], brace_off=sig[j][2] - base, kw_off=t[2] - base, in_off=in_off,
                                 line=self.line_of(t[2])))
             k += 1
         return res
 
 
-def splice_fn(src, name, impl_pat=None, contract="", loops=None, drop_pub=False, ret_name=None):
+def splice_fn(src, name, impl_pat=None, contract="", loops=None, drop_pub=False, ret_name=None, iter_names=None):
     """Return (text, meta): the function text with `contract` spliced between signature and body
     and loops[i] spliced before the `{` of the i-th loop.  Body bytes are unchanged."""
     info = src.find_fn(name, impl_pat)
@@ -321,10 +324,16 @@ def splice_fn(src, name, impl_pat=None, contract="", loops=None, drop_pub=False,
         if int(ordn) >= len(hdrs):
             raise ExtractError("fn %s has %d loops, clause for loop #%s has no anchor" % (name, len(hdrs), ordn))
     # insert from the back so offsets stay valid
-    pieces = sorted(((hdrs[int(o)]["brace_off"], txt) for o, txt in loops.items()), reverse=True)
+    pieces = [(hdrs[int(o)]["brace_off"], "\n" + txt.strip() + "\n") for o, txt in loops.items()]
+    for o, nm in (iter_names or {}).items():
+        if int(o) >= len(hdrs) or hdrs[int(o)]["in_off"] is None:
+            raise ExtractError("fn %s: loop #%s is not a `for .. in ..` loop, cannot name its iterator" % (name, o))
+        # Verus ghost-iterator label: `for x in e` is written `for x in NAME: e` (header only)
+        pieces.append((hdrs[int(o)]["in_off"], " " + nm + ":"))
+    pieces = sorted(pieces, reverse=True)
     new_body = body
     for off, txt in pieces:
-        new_body = new_body[:off] + "\n" + txt.strip() + "\n" + new_body[off:]
+        new_body = new_body[:off] + txt + new_body[off:]
     sig_text = info["sig_text"]
     if ret_name:
         # name the return value: `-> T` becomes `-> (r: T)`; the arrow is the last `->` at paren depth 0
